@@ -117,7 +117,6 @@ func c04Final(s *msSys) (string, string) {
 	return msObserveMulti("live store", s.rs, s.skeys, s.commits[len(s.commits)-1].contents, s.cfg.keys, s.cfg.bounds, false)
 }
 
-
 func c04Specs(tier string) []*seq.Spec {
 	cfg := &msCfg{nStores: 2, keys: msKeys3[:2], vals: [][]byte{[]byte("a"), []byte("b")}, bounds: msBounds3[:3], maxCommits: 3, final: c04FinalCommitted}
 	depth := 7
